@@ -7,11 +7,30 @@ import numpy as np
 from .. import gen, impl, oracle, ser, stream
 
 ID = "C03"
-LEVEL = "translation_validation"
-PROPS_MODULE = None
-THEOREMS = []
-LEAN_FILES = []
-PLANNED = ["transposeF_koszul", "tensordotF_refines_graded"]
+LEVEL = "proof"
+PROPS_MODULE = "SymmModel.Props.C03"
+THEOREMS = [
+    "SymmModel.C03.isPerm_iff_perm",
+    "SymmModel.C03.koszul_eq_invOdd",
+    "SymmModel.C03.koszul_eq_invOdd_needs_perm",
+    "SymmModel.C03.koszul_none_eq_reverse",
+    "SymmModel.C03.koszul_none_eq_pow",
+    "SymmModel.C03.koszul_id",
+    "SymmModel.C03.koszul_sq",
+    "SymmModel.C03.koszul_swap_adjacent",
+    "SymmModel.C03.transposeF_phase",
+    "SymmModel.C03.phaseFlip_phase",
+    "SymmModel.C03.phaseTranspose_phase",
+    "SymmModel.C03.phaseGlobal_phase",
+    "SymmModel.C03.phase_ops_elem",
+    "SymmModel.C03.transposeF_koszul",
+    "SymmModel.C03.valid_gives_hyps",
+    "SymmModel.C03.phaseGlobal_phase_needs_pm",
+    "SymmModel.C03.phaseTranspose_phase_needs_distinct_keys",
+    "SymmModel.C03.transposeF_phase_needs_length"
+]
+LEAN_FILES = ["SymmModel.Props.C03", "SymmModel.Proofs.Koszul"]
+PLANNED = ["tensordotF_refines_graded (both modes, both flip branches, even/odd charge) and its traceF/matmulF/einsumF corollaries"]
 RULE = ("random fermionic arrays over all symmetries (static/generic classes), even and odd total charge with "
         "labels, sparse, pending lazy signs; every permutation for transpose; tensordot over random axes in modes "
         "auto/fused/blockwise; trace, matmul, single-array einsum. Compared with the Lean model and an independent "
@@ -55,6 +74,9 @@ def gen_cases(seed, chunk, n, tier):
             p = {"axes": perm} if rng.random() < 0.85 else {}
             if not p:
                 perm = list(range(a.ndim))[::-1]
+            elif rng.random() < 0.3:
+                # negative axes denote the same permutation
+                p = {"axes": [q - a.ndim if rng.random() < 0.5 else q for q in perm]}
             entry = rng.choice(["method", "function", "autoray"])
             steps = [{"out": ["c"], "op": "transpose", "in": ["a"], "params": p}]
             env = {"a": a}
@@ -105,6 +127,12 @@ def gen_cases(seed, chunk, n, tier):
                 orc = oracle.embed_compare(c, exp, full)
                 if orc is None and _labels(c) != labels:
                     orc = f"labels {_labels(c)} != expected {labels}"
+                if orc is None and len(xa) == a.ndim == b.ndim:
+                    # the scalar form of the same call (preserve_array=False) must carry the same sign
+                    import symmray as sr
+                    sc = sr.tensordot(a, b, (tuple(xa), tuple(xb)), mode=mode)
+                    if complex(sc) != complex(exp):
+                        orc = f"scalar result {sc} != graded dense contraction {complex(exp)}"
             else:
                 orc = f"tensordot raised {res[0].get('msg')}"
             nontrivial = len(xa) >= 1 and (_odd_legs(a) >= 2 or _odd_legs(b) >= 2)
